@@ -924,3 +924,571 @@ pub fn check_deadline(batch: &Vec<DeadlineCase>, cx: &mut Cx) -> vcore::Res {
     }
     Ok(())
 }
+
+// ---------------------------------------------------------------------------------------------------
+// C09: the ASYNC fallible send (`emit_batcher::tokio::send`) with finite, non-zero timeouts.
+//
+// E2 polls the async send under a paused runtime whose timers never fire, so there it only ever sees the
+// timeouts 0 and "never". Here the future runs on real tokio runtimes (current-thread, multi-thread, and a
+// current-thread runtime with a paused, auto-advancing clock) against a receiver that is live but slow, whose
+// processor never returns (held on a harness gate), or that was never started; the receiver runs on its own
+// `sync::spawn` thread, its own `tokio::spawn` thread, or as a task on the SAME runtime as the senders. Several
+// tasks send concurrently. `tokio::flush` and `try_send` ride along (flush is judged by the C07 ticket rule and
+// reported under C07/C08, not C09).
+//
+// Oracle (schedule-independent): every call returns; an `Err` carries exactly the item that was submitted; once
+// the gate is opened / the receiver is started and the last sender is dropped, every item whose send reported
+// `Ok` is delivered exactly once, no handed-back item is delivered, no truncation is counted (there is no plain
+// send in these workloads), no batch and no queue_length sample exceeds the capacity. Time decides nothing
+// except the 30 s "returns at all" watchdog.
+
+#[derive(Serialize, Deserialize, Debug, Clone, Copy, PartialEq)]
+pub enum ARt {
+    CurrentThread,
+    MultiThread,
+    /// current-thread runtime built with `start_paused(true)`: timers fire by auto-advance as soon as the
+    /// runtime is idle, while emit_batcher measures the send's own deadline on the real clock
+    PausedClock,
+}
+
+#[derive(Serialize, Deserialize, Debug, Clone, Copy, PartialEq)]
+pub enum ARecv {
+    /// running; every batch takes `slow_ms`
+    Live,
+    /// running, but the processor does not return until the harness opens the gate (after all calls returned)
+    Stalled,
+    /// not started until all calls have returned
+    NeverStarted,
+}
+
+#[derive(Serialize, Deserialize, Debug, Clone, Copy, PartialEq)]
+pub enum APlace {
+    SyncThread,
+    TokioThread,
+    /// `Receiver::exec` spawned as a task on the runtime that also runs the sending tasks
+    SameRuntime,
+}
+
+#[derive(Serialize, Deserialize, Debug, Clone, Copy, PartialEq)]
+pub enum AOp {
+    /// `emit_batcher::tokio::send(.., ms)`; `huge` != 0 (only honoured against a live receiver on a real clock)
+    /// replaces the timeout by one at the far end of `Duration` (same table as `BlockingCase::huge`)
+    Send { ms: u16, huge: u8 },
+    TrySend,
+    /// `emit_batcher::tokio::flush(.., ms)`
+    Flush { ms: u16 },
+    Sleep(u8),
+    Yield,
+}
+
+#[derive(Serialize, Deserialize, Debug, Clone)]
+pub struct AsyncCase {
+    pub rt: ARt,
+    pub recv: ARecv,
+    pub place: APlace,
+    pub cap: u8,
+    /// items pushed (try_send) before the tasks start
+    pub prefill: u8,
+    /// send one item first and wait until the processor was entered with it (so a stalled processor already
+    /// holds a batch and `prefill` fills the queue behind it)
+    pub primed: bool,
+    pub slow_ms: u8,
+    /// every inner vector runs as one tokio task
+    pub tasks: Vec<Vec<AOp>>,
+}
+
+pub fn async_case() -> impl Strategy<Value = AsyncCase> {
+    let op = prop_oneof![
+        9 => (prop_oneof![1 => Just(0u16), 4 => 1u16..=6, 3 => 6u16..=30], prop_oneof![7 => Just(0u8), 1 => 1u8..5]).prop_map(|(ms, huge)| AOp::Send { ms, huge }),
+        2 => Just(AOp::TrySend),
+        2 => prop_oneof![1 => Just(0u16), 3 => 1u16..=20].prop_map(|ms| AOp::Flush { ms }),
+        1 => (0u8..4).prop_map(AOp::Sleep),
+        1 => Just(AOp::Yield),
+    ];
+    (
+        prop_oneof![3 => Just(ARt::CurrentThread), 3 => Just(ARt::MultiThread), 1 => Just(ARt::PausedClock)],
+        prop_oneof![2 => Just(ARecv::Live), 3 => Just(ARecv::Stalled), 2 => Just(ARecv::NeverStarted)],
+        prop_oneof![Just(APlace::SyncThread), Just(APlace::TokioThread), Just(APlace::SameRuntime)],
+        1u8..=4,
+        0u8..=5,
+        any::<bool>(),
+        prop_oneof![2 => Just(0u8), 3 => 1u8..=20],
+        prop::collection::vec(prop::collection::vec(op, 1..=5), 1..=4),
+    )
+        .prop_map(|(rt, recv, place, cap, prefill, primed, slow_ms, tasks)| AsyncCase { rt, recv, place, cap, prefill, primed, slow_ms, tasks })
+}
+
+struct AShared {
+    seq: AtomicU64,
+    /// (items, ticket at which the processor finished with them)
+    batches: Mutex<Vec<(Vec<u64>, u64)>>,
+    entered: AtomicUsize,
+    latch: Latch,
+    gate: tokio::sync::watch::Sender<bool>,
+    /// 0 = setting up, 1 = the tasks are running, 2 = all calls returned, tearing down
+    phase: AtomicUsize,
+    /// per task: index of the op it is in (usize::MAX = finished)
+    cur: Vec<AtomicUsize>,
+}
+
+impl AShared {
+    fn open_gate(&self) {
+        *self.latch.open.lock().unwrap() = true;
+        self.latch.cv.notify_all();
+        self.gate.send_replace(true);
+    }
+
+    fn finish(&self, batch: Vec<u64>) {
+        let t = self.seq.fetch_add(1, Ordering::SeqCst);
+        self.batches.lock().unwrap().push((batch, t));
+    }
+}
+
+#[derive(Debug)]
+struct ASend {
+    item: u64,
+    /// 0 for try_send and the set-up sends
+    ms: u16,
+    kind: &'static str,
+    /// Ok(()) = accepted, Err(x) = the error's `into_retryable()`
+    res: Result<(), Option<u64>>,
+    ticket_ret: u64,
+    queue_after: usize,
+}
+
+#[derive(Default)]
+struct ADriven {
+    sends: Vec<ASend>,
+    flushes: Vec<(u16, FlushRec)>,
+    panics: Vec<(usize, String)>,
+    truncated: usize,
+    blocked: usize,
+    /// SameRuntime only: did the receiver task end within 30 s (runtime clock) of the last sender being dropped
+    same_rt_terminated: Option<bool>,
+    harness: Option<Fail>,
+}
+
+fn far_end(huge: u8, ms: u16) -> Duration {
+    match huge {
+        0 => Duration::from_millis(ms as u64),
+        1 => Duration::MAX,
+        2 => Duration::from_secs(u64::MAX),
+        3 => Duration::from_secs(i64::MAX as u64),
+        _ => Duration::from_secs(1 << 62),
+    }
+}
+
+fn sync_processor(sh: Arc<AShared>, slow: Duration) -> impl FnMut(Ch) -> Result<(), BatchError<Ch>> + Send + 'static {
+    move |batch: Ch| {
+        sh.entered.fetch_add(1, Ordering::SeqCst);
+        {
+            let mut open = sh.latch.open.lock().unwrap();
+            while !*open {
+                open = sh.latch.cv.wait(open).unwrap();
+            }
+        }
+        if !slow.is_zero() {
+            std::thread::sleep(slow);
+        }
+        sh.finish(batch);
+        Ok(())
+    }
+}
+
+fn async_processor(sh: Arc<AShared>, slow: Duration) -> impl FnMut(Ch) -> std::pin::Pin<Box<dyn std::future::Future<Output = Result<(), BatchError<Ch>>> + Send>> + Send + 'static {
+    move |batch: Ch| {
+        let sh = sh.clone();
+        let mut gate = sh.gate.subscribe();
+        Box::pin(async move {
+            sh.entered.fetch_add(1, Ordering::SeqCst);
+            // a processor that "never returns": pending until the harness opens the gate
+            let _ = gate.wait_for(|open| *open).await.map(|_| ());
+            if !slow.is_zero() {
+                tokio::time::sleep(slow).await;
+            }
+            sh.finish(batch);
+            Ok(())
+        })
+    }
+}
+
+async fn drive_async(c: AsyncCase, sender: Sender<Ch>, mut same_rt_receiver: Option<emit_batcher::Receiver<Ch>>, sh: Arc<AShared>) -> ADriven {
+    let mut out = ADriven::default();
+    let cap = c.cap.max(1) as usize;
+    let slow = Duration::from_millis(c.slow_ms as u64);
+    let sender = Arc::new(sender);
+    let mut recv_task = None;
+    if c.recv != ARecv::NeverStarted {
+        if let Some(r) = same_rt_receiver.take() {
+            recv_task = Some(tokio::spawn(r.exec(|d| tokio::time::sleep(d), async_processor(sh.clone(), slow))));
+        }
+    }
+    let setup_send = |item: u64, out: &mut ADriven| {
+        let res = sender.try_send(item).map_err(|e| e.into_retryable());
+        let t = sh.seq.fetch_add(1, Ordering::SeqCst);
+        out.sends.push(ASend { item, ms: 0, kind: "try_send (set-up)", res, ticket_ret: t, queue_after: sample(&sender).queue_length });
+    };
+    if c.primed && c.recv != ARecv::NeverStarted {
+        setup_send((0xfffe << 32) | 1, &mut out);
+        let t0 = Instant::now();
+        while sh.entered.load(Ordering::SeqCst) == 0 {
+            if t0.elapsed() > Duration::from_secs(20) {
+                out.harness = Some(Fail::new("harness/receiver-did-not-start", format!("{c:?}: the receiver never took the priming item")));
+                sh.open_gate();
+                return out;
+            }
+            if c.place == APlace::SameRuntime {
+                tokio::task::yield_now().await;
+            } else {
+                tokio::time::sleep(Duration::from_millis(1)).await;
+            }
+        }
+    }
+    for i in 0..c.prefill.min(cap as u8) {
+        setup_send((0xffff << 32) | (i as u64 + 1), &mut out);
+    }
+
+    sh.phase.store(1, Ordering::SeqCst);
+    let mut handles = Vec::new();
+    for (ti, ops) in c.tasks.iter().enumerate() {
+        let (sender, sh, ops) = (sender.clone(), sh.clone(), ops.clone());
+        let far_end_ok = c.recv == ARecv::Live && c.rt != ARt::PausedClock;
+        handles.push(tokio::spawn(async move {
+            let mut sends: Vec<ASend> = Vec::new();
+            let mut flushes: Vec<(u16, FlushRec)> = Vec::new();
+            let mut n = 0u64;
+            for (oi, op) in ops.iter().enumerate() {
+                sh.cur[ti].store(oi, Ordering::SeqCst);
+                match *op {
+                    AOp::Send { ms, huge } => {
+                        n += 1;
+                        let item = ((ti as u64) << 32) | n;
+                        let d = far_end(if far_end_ok { huge } else { 0 }, ms);
+                        let res = emit_batcher::tokio::send(&sender, item, d).await.map_err(|e| e.into_retryable());
+                        let t = sh.seq.fetch_add(1, Ordering::SeqCst);
+                        sends.push(ASend { item, ms, kind: "tokio::send", res, ticket_ret: t, queue_after: sample(&sender).queue_length });
+                    }
+                    AOp::TrySend => {
+                        n += 1;
+                        let item = ((ti as u64) << 32) | n;
+                        let res = sender.try_send(item).map_err(|e| e.into_retryable());
+                        let t = sh.seq.fetch_add(1, Ordering::SeqCst);
+                        sends.push(ASend { item, ms: 0, kind: "try_send", res, ticket_ret: t, queue_after: sample(&sender).queue_length });
+                    }
+                    AOp::Flush { ms } => {
+                        let tc = sh.seq.fetch_add(1, Ordering::SeqCst);
+                        let ok = emit_batcher::tokio::flush(&sender, Duration::from_millis(ms as u64)).await;
+                        let tr = sh.seq.fetch_add(1, Ordering::SeqCst);
+                        flushes.push((ms, FlushRec { ticket_call: tc, ticket_ret: tr, ok }));
+                    }
+                    AOp::Sleep(ms) => tokio::time::sleep(Duration::from_millis(ms as u64)).await,
+                    AOp::Yield => tokio::task::yield_now().await,
+                }
+            }
+            sh.cur[ti].store(usize::MAX, Ordering::SeqCst);
+            (sends, flushes)
+        }));
+    }
+    for (ti, h) in handles.into_iter().enumerate() {
+        match h.await {
+            Ok((s, f)) => {
+                out.sends.extend(s);
+                out.flushes.extend(f);
+            }
+            Err(e) => {
+                let msg = if e.is_panic() { payload_msg(&e.into_panic()) } else { "task cancelled".to_string() };
+                out.panics.push((ti, msg));
+            }
+        }
+    }
+    sh.phase.store(2, Ordering::SeqCst);
+
+    // every call has returned: let the destination run again, then drop the last sender
+    sh.open_gate();
+    let m = sample(&sender);
+    out.truncated = m.truncated;
+    out.blocked = m.blocked;
+    if let Some(r) = same_rt_receiver.take() {
+        // the receiver that was never started: start it now
+        recv_task = Some(tokio::spawn(r.exec(|d| tokio::time::sleep(d), async_processor(sh.clone(), Duration::ZERO))));
+    }
+    match Arc::try_unwrap(sender) {
+        Ok(s) => drop(s),
+        Err(_) => {
+            // only a panicked task can have leaked a clone; its failure is reported from `panics`
+        }
+    }
+    if let Some(t) = recv_task {
+        out.same_rt_terminated = Some(tokio::time::timeout(Duration::from_secs(30), t).await.is_ok());
+    }
+    out
+}
+
+pub struct AOutcome {
+    pub fails: Vec<(Prop, Fail)>,
+    pub timed_out_handed_back: usize,
+    pub zero_timeout_handed_back: usize,
+    pub try_send_handed_back: usize,
+    pub accepted_by_async_send: usize,
+    pub flush_true: usize,
+    pub flush_expired: usize,
+    pub delivered: usize,
+    pub blocked: usize,
+    pub far_end: usize,
+}
+
+pub fn run_async(c: &AsyncCase) -> AOutcome {
+    let cap = c.cap.max(1) as usize;
+    let slow = Duration::from_millis(c.slow_ms as u64);
+    let mut o = AOutcome { fails: Vec::new(), timed_out_handed_back: 0, zero_timeout_handed_back: 0, try_send_handed_back: 0, accepted_by_async_send: 0, flush_true: 0, flush_expired: 0, delivered: 0, blocked: 0, far_end: 0 };
+    emit_batcher::verif::set_delay_divisor(4000);
+    let (sender, receiver) = emit_batcher::bounded::<Ch>(cap);
+    let (gate, _) = tokio::sync::watch::channel(c.recv != ARecv::Stalled);
+    let sh = Arc::new(AShared {
+        seq: AtomicU64::new(1),
+        batches: Mutex::new(Vec::new()),
+        entered: AtomicUsize::new(0),
+        latch: Latch { open: Mutex::new(c.recv != ARecv::Stalled), cv: Condvar::new() },
+        gate,
+        phase: AtomicUsize::new(0),
+        cur: c.tasks.iter().map(|_| AtomicUsize::new(usize::MAX)).collect(),
+    });
+    let mut os_recv: Option<std::thread::JoinHandle<()>> = None;
+    let mut parked: Option<emit_batcher::Receiver<Ch>> = None;
+    let mut same_rt: Option<emit_batcher::Receiver<Ch>> = None;
+    match (c.place, c.recv) {
+        (APlace::SameRuntime, _) => same_rt = Some(receiver),
+        (_, ARecv::NeverStarted) => parked = Some(receiver),
+        (APlace::SyncThread, _) => os_recv = Some(emit_batcher::sync::spawn("verif-e7-async-sync", receiver, sync_processor(sh.clone(), slow)).expect("spawn receiver")),
+        (APlace::TokioThread, _) => os_recv = Some(emit_batcher::tokio::spawn("verif-e7-async-tokio", receiver, async_processor(sh.clone(), slow)).expect("spawn receiver")),
+    }
+
+    let h = {
+        let (c, sh) = (c.clone(), sh.clone());
+        std::thread::spawn(move || {
+            let rt = match c.rt {
+                ARt::CurrentThread => tokio::runtime::Builder::new_current_thread().enable_all().build(),
+                ARt::PausedClock => tokio::runtime::Builder::new_current_thread().enable_all().start_paused(true).build(),
+                ARt::MultiThread => tokio::runtime::Builder::new_multi_thread().worker_threads(2).enable_all().build(),
+            }
+            .expect("build runtime");
+            rt.block_on(drive_async(c, sender, same_rt, sh))
+        })
+    };
+    // "returns at all": 30 s for the calls (their finite timeouts add up to well under a second; a far-end
+    // timeout only runs against a live receiver), then 45 s more for the tear-down inside the runtime
+    let t0 = Instant::now();
+    let mut t_phase2: Option<Instant> = None;
+    let driven = loop {
+        if h.is_finished() {
+            break Some(h.join());
+        }
+        let phase = sh.phase.load(Ordering::SeqCst);
+        if phase >= 2 && t_phase2.is_none() {
+            t_phase2 = Some(Instant::now());
+        }
+        let over = match t_phase2 {
+            None => t0.elapsed() > Duration::from_secs(30),
+            Some(t) => t.elapsed() > Duration::from_secs(45),
+        };
+        if over {
+            break None;
+        }
+        std::thread::sleep(Duration::from_micros(200));
+    };
+    let d = match driven {
+        None => {
+            let phase = sh.phase.load(Ordering::SeqCst);
+            let stuck: Vec<(usize, AOp)> = sh.cur.iter().enumerate().filter_map(|(ti, i)| c.tasks[ti].get(i.load(Ordering::SeqCst)).map(|op| (ti, *op))).collect();
+            sh.open_gate();
+            drop(parked);
+            if phase >= 2 {
+                o.fails.push((Prop::C08, Fail::new("C08/worker-did-not-terminate", format!("{c:?}: the runtime was still tearing down 45 s after every call had returned"))));
+            } else if phase == 0 {
+                o.fails.push((Prop::C08, Fail::new("harness/async-setup-stuck", format!("{c:?}: the set-up did not finish within 30 s"))));
+            } else if stuck.iter().any(|(_, op)| matches!(op, AOp::Send { huge, .. } if *huge != 0 && c.recv == ARecv::Live && c.rt != ARt::PausedClock)) {
+                o.fails.push((Prop::C08, Fail::new("C08/async-call-never-returned", format!("{c:?}: still inside {stuck:?} (task, op) 30 s after the tasks started, against a live receiver"))));
+            } else if stuck.iter().any(|(_, op)| matches!(op, AOp::Send { .. })) {
+                o.fails.push((Prop::C09, Fail::new("C09/async-send-never-gave-up", format!("{c:?}: still inside {stuck:?} (task, op) 30 s after the tasks started although every timeout is at most 30 ms"))));
+            } else {
+                o.fails.push((Prop::C08, Fail::new("C08/async-call-never-returned", format!("{c:?}: still inside {stuck:?} (task, op) 30 s after the tasks started"))));
+            }
+            return o;
+        }
+        Some(Err(p)) => {
+            sh.open_gate();
+            o.fails.push((Prop::C08, Fail::new("harness/async-driver-panicked", format!("{c:?}: {}", payload_msg(&p)))));
+            return o;
+        }
+        Some(Ok(d)) => d,
+    };
+    if let Some(f) = d.harness {
+        o.fails.push((Prop::C08, f));
+        return o;
+    }
+    // the sender is gone by now: a receiver that was never started must still deliver what was queued
+    if let Some(r) = parked.take() {
+        os_recv = Some(match c.place {
+            APlace::TokioThread => emit_batcher::tokio::spawn("verif-e7-async-late", r, async_processor(sh.clone(), Duration::ZERO)),
+            _ => emit_batcher::sync::spawn("verif-e7-async-late", r, sync_processor(sh.clone(), Duration::ZERO)),
+        }
+        .expect("spawn receiver"));
+    }
+    let mut joined = d.panics.is_empty();
+    if let Some(h) = os_recv {
+        if d.panics.is_empty() {
+            if join_within(h, Duration::from_secs(30)).is_none() {
+                joined = false;
+                o.fails.push((Prop::C08, Fail::new("C08/worker-did-not-terminate", format!("{c:?}: receiver thread still running 30 s after the last sender was dropped"))));
+            }
+        }
+    }
+    if d.same_rt_terminated == Some(false) {
+        joined = false;
+        o.fails.push((Prop::C08, Fail::new("C08/worker-did-not-terminate", format!("{c:?}: receiver task still running 30 s (runtime clock) after the last sender was dropped"))));
+    }
+
+    // ---- oracles -----------------------------------------------------------------------------
+    for (ti, msg) in &d.panics {
+        let sends = c.tasks[*ti].iter().any(|op| matches!(op, AOp::Send { .. } | AOp::TrySend));
+        if sends {
+            o.fails.push((Prop::C09, Fail::new("C09/async-send-panicked-item-lost", format!("{c:?}: task {ti} panicked inside a channel call, so its item was neither enqueued nor handed back: {msg}"))));
+        } else {
+            o.fails.push((Prop::C08, Fail::new("C08/async-flush-panicked", format!("{c:?}: task {ti} panicked inside a flush: {msg}"))));
+        }
+    }
+    let batches = sh.batches.lock().unwrap().clone();
+    let mut seen: HashMap<u64, u64> = HashMap::new();
+    let mut last_per_sender: HashMap<u64, u64> = HashMap::new();
+    let accepted: HashSet<u64> = d.sends.iter().filter(|s| s.res.is_ok()).map(|s| s.item).collect();
+    for (items, t) in &batches {
+        if items.len() > cap {
+            o.fails.push((Prop::C09, Fail::new("C09/batch-larger-than-capacity", format!("{c:?}: the processor was handed {} items at once although at most {cap} can be pending", items.len()))));
+        }
+        if items.is_empty() {
+            o.fails.push((Prop::C06, Fail::new("C06/empty-batch", format!("{c:?}: processor invoked with an empty batch"))));
+        }
+        for x in items {
+            if seen.insert(*x, *t).is_some() {
+                o.fails.push((Prop::C06, Fail::new("C06/item-delivered-twice", format!("{c:?}: item {x:#x} appears in two batches"))));
+            }
+            if !accepted.contains(x) && d.panics.is_empty() {
+                o.fails.push((Prop::C06, Fail::new("C06/item-never-accepted", format!("{c:?}: item {x:#x} delivered but its send did not report acceptance"))));
+            }
+            let (s, n) = (x >> 32, x & 0xffff_ffff);
+            let last = last_per_sender.entry(s).or_insert(0);
+            if n <= *last {
+                o.fails.push((Prop::C06, Fail::new("C06/per-sender-order-violated", format!("{c:?}: sender {s}: item {n} delivered after item {last}"))));
+            }
+            *last = n;
+        }
+    }
+    for s in &d.sends {
+        match &s.res {
+            Ok(()) => {
+                if s.kind == "tokio::send" {
+                    o.accepted_by_async_send += 1;
+                }
+            }
+            Err(got) => {
+                if *got != Some(s.item) {
+                    o.fails.push((
+                        Prop::C09,
+                        Fail::new("C09/handed-back-item-differs", format!("{c:?}: {} of {:#x} (timeout {} ms) failed and handed back {got:?}: the item is neither enqueued nor returned to the caller", s.kind, s.item, s.ms)),
+                    ));
+                } else if s.kind == "tokio::send" && s.ms > 0 {
+                    o.timed_out_handed_back += 1;
+                } else if s.kind == "tokio::send" {
+                    o.zero_timeout_handed_back += 1;
+                } else {
+                    o.try_send_handed_back += 1;
+                }
+                if seen.contains_key(&s.item) {
+                    o.fails.push((Prop::C09, Fail::new("C09/handed-back-but-delivered", format!("{c:?}: item {:#x} was handed back to the caller and also delivered", s.item))));
+                }
+            }
+        }
+        if s.queue_after > cap {
+            o.fails.push((Prop::C09, Fail::new("C09/pending-exceeds-capacity", format!("{c:?}: queue_length was {} after {} of {:#x} with capacity {cap}", s.queue_after, s.kind, s.item))));
+        }
+    }
+    if joined {
+        // no plain send in the workload: nothing may be truncated, every item reported as enqueued must arrive
+        let lost: Vec<u64> = accepted.iter().filter(|x| !seen.contains_key(x)).copied().collect();
+        if !lost.is_empty() || d.truncated > 0 {
+            o.fails.push((
+                Prop::C09,
+                Fail::new(
+                    "C09/fallible-send-silently-discarded",
+                    format!("{c:?}: no plain send in the workload, yet {} items reported as enqueued (e.g. {:#x?}) never arrived although the receiver ran to completion ({} truncations counted)", lost.len(), lost.first(), d.truncated),
+                ),
+            ));
+        }
+    }
+    for (_, f) in d.flushes.iter().filter(|(_, f)| f.ok) {
+        for s in d.sends.iter().filter(|s| s.res.is_ok() && s.ticket_ret < f.ticket_call) {
+            match seen.get(&s.item) {
+                Some(bt) if *bt < f.ticket_ret => {}
+                _ => o.fails.push((
+                    Prop::C07,
+                    Fail::new(
+                        "C07/flush-returned-before-item-processed",
+                        format!("{c:?}: item {:#x}: send returned at ticket {} < flush call {}, the async flush resolved true at {} but the item's batch finished at {:?}", s.item, s.ticket_ret, f.ticket_call, f.ticket_ret, seen.get(&s.item)),
+                    ),
+                )),
+            }
+        }
+    }
+    o.flush_true = d.flushes.iter().filter(|(_, f)| f.ok).count();
+    o.flush_expired = d.flushes.iter().filter(|(ms, f)| !f.ok && *ms > 0).count();
+    o.delivered = seen.len();
+    o.blocked = d.blocked;
+    o.far_end = if c.recv == ARecv::Live && c.rt != ARt::PausedClock { c.tasks.iter().flatten().filter(|op| matches!(op, AOp::Send { huge, .. } if *huge != 0)).count() } else { 0 };
+    o
+}
+
+pub fn check_async(c: &AsyncCase, which: Prop, cx: &mut Cx) -> vcore::Res {
+    let out = run_async(c);
+    cx.class(match c.rt {
+        ARt::CurrentThread => "async:rt-current-thread",
+        ARt::MultiThread => "async:rt-multi-thread",
+        ARt::PausedClock => "async:rt-paused-clock",
+    });
+    cx.class(match c.recv {
+        ARecv::Live => "async:recv-live-slow",
+        ARecv::Stalled => "async:recv-processor-never-returns",
+        ARecv::NeverStarted => "async:recv-never-started",
+    });
+    cx.class(match c.place {
+        APlace::SyncThread => "async:receiver-on-sync-thread",
+        APlace::TokioThread => "async:receiver-on-tokio-thread",
+        APlace::SameRuntime => "async:receiver-on-the-senders-runtime",
+    });
+    cx.class_if(c.tasks.len() >= 2, "async:concurrent-tasks>=2");
+    cx.class_if(out.timed_out_handed_back > 0, "async:finite-timeout-expired-item-handed-back");
+    cx.class_if(out.timed_out_handed_back > 0 && c.rt == ARt::MultiThread, "async:finite-timeout-expired-item-handed-back/multi-thread");
+    cx.class_if(out.timed_out_handed_back > 0 && c.rt == ARt::CurrentThread, "async:finite-timeout-expired-item-handed-back/current-thread");
+    cx.class_if(out.timed_out_handed_back > 0 && c.recv == ARecv::Live, "async:finite-timeout-expired-item-handed-back/live-slow-receiver");
+    cx.class_if(out.zero_timeout_handed_back > 0, "async:zero-timeout-item-handed-back");
+    cx.class_if(out.try_send_handed_back > 0, "async:try-send-handed-back");
+    cx.class_if(out.accepted_by_async_send > 0 && out.blocked > 0, "async:some-send-waited-and-some-send-got-in");
+    cx.class_if(out.far_end > 0, "async:far-end-of-duration-timeout");
+    cx.class_if(out.flush_true > 0, "async:flush-true");
+    cx.class_if(out.flush_expired > 0, "async:flush-expired");
+    cx.nontrivial(match which {
+        Prop::C09 => out.blocked > 0 || out.timed_out_handed_back + out.zero_timeout_handed_back + out.try_send_handed_back > 0,
+        Prop::C07 => out.flush_true > 0 && out.delivered > 0,
+        Prop::C08 => c.recv != ARecv::Live,
+        Prop::C06 => c.tasks.len() >= 2 && out.delivered >= 2,
+    });
+    let mut others = 0;
+    for (p, f) in out.fails {
+        if p == which || f.sig.starts_with("harness/") {
+            cx.fail(f.sig, f.msg)?;
+        } else {
+            others += 1;
+        }
+    }
+    cx.class_if(others > 0, "other-property-oracle-failed");
+    Ok(())
+}
